@@ -729,7 +729,10 @@ pub fn xrun(f: &mut F, parts: &[&str]) -> String {
                         Ok((i, n)) => {
                             consumed += i;
                             body.extend_from_slice(&o[..n]);
-                            if fl.can_proceed() {
+                            // a close-delimited body is "ready" at any time: there the caller goes on until the
+                            // connection has ended (nothing is left of the stream)
+                            let close = matches!(fl.body_mode(), ureq_proto::BodyMode::CloseDelimited);
+                            if fl.can_proceed() && (!close || consumed >= stream.len()) {
                                 match fl.proceed() {
                                     Some(RecvBodyResult::Redirect(v)) => F::Redirect(v),
                                     Some(RecvBodyResult::Cleanup(v)) => F::Cleanup(v),
